@@ -218,8 +218,13 @@ def build_props(cid, timeout=1500, clean_cone=False):
         else:
             res["failed"] = "build of %s failed: %s" % (rel, " ".join(p.stdout.split())[-400:])
         return res
-    # Parse Print Assumptions output, in order of appearance.
-    chunks = re.split(r"(?m)^(Closed under the global context|Axioms:)\s*$", p.stdout)
+    # Parse Print Assumptions output, in order of appearance -- only what coqc printed while
+    # compiling Props/<cid>.v itself (a dependency may print reports of its own)
+    tail = p.stdout
+    marker = "COQC %s" % rel
+    if marker in tail:
+        tail = tail[tail.rindex(marker):]
+    chunks = re.split(r"(?m)^(Closed under the global context|Axioms:)\s*$", tail)
     reports = []
     i = 1
     while i < len(chunks):
